@@ -491,15 +491,15 @@ _F64 = z3.Float64()
 _RNE = z3.RNE()
 
 
-def fp_term(x):
-    """IEEE double term of an SFP or of a Python / NumPy number"""
+def fp_term(x, sort=None):
+    """IEEE term (of the given FloatingPoint sort, default double) of an SFP or of a Python / NumPy number"""
     if isinstance(x, SFP):
         return x.t
     if isinstance(x, (bool,) + _NPBOOL):
         x = int(x)
     if isinstance(x, (int, float) + _NPFLOAT + _NPINT):
-        return z3.FPVal(float(x), _F64)
-    raise Unsupported("no IEEE-double term for %s" % type(x).__name__)
+        return z3.FPVal(float(x), sort if sort is not None else _F64)
+    raise Unsupported("no IEEE term for %s" % type(x).__name__)
 
 
 class SFP(SReal):
@@ -510,7 +510,7 @@ class SFP(SReal):
 
     def _op(self, o, f, swap=False):
         try:
-            b = fp_term(o)
+            b = fp_term(o, self.t.sort())
         except Unsupported:
             return NotImplemented
         a = self.t
@@ -551,7 +551,7 @@ class SFP(SReal):
 
     def _cmp(self, o, f):
         try:
-            b = fp_term(o)
+            b = fp_term(o, self.t.sort())
         except Unsupported:
             return NotImplemented
         return wrap(z3.simplify(f(self.t, b)))
@@ -582,9 +582,14 @@ class SFP(SReal):
     __hash__ = None
 
     def __floor__(self):
-        raise Unsupported("floor of an IEEE-double term")
+        raise Unsupported("floor of an IEEE term")
 
-    __ceil__ = __trunc__ = __floor__
+    __ceil__ = __floor__
+
+    def __trunc__(self):
+        # C / NumPy conversion to a 64-bit integer: round toward zero (values outside the
+        # integer range are the caller's business: undefined in C)
+        return wrap(z3.BV2Int(z3.fpToSBV(z3.RTZ(), self.t, z3.BitVecSort(64)), is_signed=True))
 
     def __repr__(self):
         return "<SFP %s>" % str(self.t)[:80]
@@ -728,6 +733,8 @@ def to_int_trunc(x):
         return x
     if isinstance(x, SBool):
         return x._asint()
+    if isinstance(x, SFP):
+        return x.__trunc__()
     if isinstance(x, SReal):
         return wrap(trunc_int(x.t))
     if isinstance(x, fractions.Fraction):
@@ -951,8 +958,9 @@ class Ctx(object):
             self._assume_t(v <= ratval(hi))
         return SReal(v)
 
-    def fp(self, name, lo=None, hi=None):
-        """an IEEE double input (finite; optionally within [lo, hi])"""
+    def fp(self, name, lo=None, hi=None, sort=None):
+        """an IEEE input (double unless a narrower FloatingPoint sort is given; finite; optionally within [lo, hi])"""
+        _F64 = sort if sort is not None else globals()["_F64"]
         v = z3.FP(name, _F64)
         self.inputs[name] = v
         self._assume_t(z3.Not(z3.Or(z3.fpIsNaN(v), z3.fpIsInf(v))))
@@ -1499,10 +1507,18 @@ def model_value(val):
     if z3.is_false(val):
         return False
     if z3.is_fp(val):
-        import struct
-        bv = z3.simplify(z3.fpToIEEEBV(val))
-        if z3.is_bv_value(bv):
-            return {"fp": struct.unpack("<d", struct.pack("<Q", bv.as_long()))[0].hex()}
+        # any width: the exact rational value, which a double holds exactly for widths up to 64
+        try:
+            if z3.is_true(z3.simplify(z3.fpIsNaN(val))) or z3.is_true(z3.simplify(z3.fpIsInf(val))):
+                return str(val)
+            r = z3.simplify(z3.fpToReal(val))
+            if z3.is_rational_value(r):
+                f = float(fractions.Fraction(r.numerator_as_long(), r.denominator_as_long()))
+                if z3.is_true(z3.simplify(z3.fpIsNegative(val))) and f == 0.0:
+                    f = -0.0
+                return {"fp": f.hex()}
+        except z3.Z3Exception:
+            pass
         return str(val)
     if z3.is_algebraic_value(val):
         a = val.approx(20)
